@@ -173,6 +173,8 @@ fn lattice_case(idx: u64, rng: &mut Rng) -> NetCfg {
     let (w, k1, s1, p1, d1) = t((i / 1440 + (i % 1440) * 487 + 77) % 1440);
     let c = rng.range(1, 2);
     let filters = rng.range(1, 2);
+    // the activation (soft-max included) is applied to the spatial output and must keep its shape
+    let act = *rng.pick(&ALL_ACTS);
     let l = match kind {
         "conv" => LCfg::Conv {
             filters,
@@ -180,7 +182,7 @@ fn lattice_case(idx: u64, rng: &mut Rng) -> NetCfg {
             stride: (s0, s1),
             padding: (p0, p1),
             dilation: (d0, d1),
-            act: Act::Linear,
+            act,
             dropout: None,
         },
         "deconv" => LCfg::Deconv {
@@ -188,7 +190,7 @@ fn lattice_case(idx: u64, rng: &mut Rng) -> NetCfg {
             kernel: (k0, k1),
             stride: (s0, s1),
             padding: (p0, p1),
-            act: Act::Linear,
+            act,
             dropout: None,
         },
         _ => LCfg::Pool { kernel: (k0, k1), stride: (s0, s1) },
@@ -348,6 +350,7 @@ impl Monitor for C08 {
                 let cfg = lattice_case(idx, &mut rng);
                 out.key = cfg.describe();
                 out.cover("lattice_geometries", cfg.layers[0].geometry());
+                out.cover("lattice_activations", cfg.layers[0].act().map(|a| a.name()).unwrap_or("none").to_string());
                 check_network(&cfg, &mut out, cfg.layers[0].kind());
                 if idx < 3 {
                     out.sample = Some(J::obj().set("network", J::s(&cfg.describe())));
@@ -356,6 +359,7 @@ impl Monitor for C08 {
             "sequences" => {
                 let mut o = NetOpts::standard();
                 o.max_extent = 8;
+                o.acts = ALL_ACTS.to_vec();
                 let mut cfg = random_net(&mut rng, &o);
                 if idx % 4 == 3 && cfg.layers.len() >= 2 {
                     insert_block(&mut rng, &mut cfg, 3);
